@@ -257,7 +257,7 @@ func c09DrawAction(t *rapid.T, call *c09Call, unit string) c09Action {
 	case c09ActTrunc:
 		act.partial = rapid.IntRange(0, 2).Draw(t, "partialRecords")
 	case c09ActForeign:
-		act.ansKind = rapid.SampledFrom([]int{c09AnsAddr, c09AnsAddr, c09AnsTTL0, c09AnsCname}).Draw(t, "answerShape")
+		act.ansKind = rapid.SampledFrom([]int{c09AnsAddr, c09AnsAddr, c09AnsTTL0, c09AnsCname, c09AnsCnameAddr1st}).Draw(t, "answerShape")
 		act.foreign = c09OtherQuestion(t, call.req.Question[0])
 	}
 	return act
@@ -511,7 +511,7 @@ func c09ControllerCase(t *rapid.T) {
 		startStep(b, true)
 		startStep(a, false)
 		if c := parkedForKey(a.key); c != nil {
-			shape := rapid.SampledFrom([]int{c09AnsAddr, c09AnsAddr, c09AnsCname, c09AnsEmpty, c09AnsTTL2}).Draw(t, "overlapAnswerShape")
+			shape := rapid.SampledFrom([]int{c09AnsAddr, c09AnsAddr, c09AnsCname, c09AnsCnameAddr1st, c09AnsEmpty, c09AnsTTL2}).Draw(t, "overlapAnswerShape")
 			doRelease(c, &c09Action{kind: c09ActOK, ansKind: shape})
 		}
 		started = 3
